@@ -267,6 +267,15 @@ def _wall(name, xs_ref):
     upper X-point of the reference interpolant"""
     if name in ("W0", "W4"):
         return vfam.wall_points(name)
+    if name.startswith("W4:"):
+        # the same polygon described from every starting vertex, in both directions, and its
+        # mirror image: which edge is the implied closing segment must not matter
+        _, rot, winding, *m = name.split(":")
+        w = vfam.wall_points("W4", mirror=bool(m))
+        if winding == "rev":
+            w = w[::-1]
+        k = int(rot)
+        return w[k:] + w[:k]
     up = max(xs_ref, key=lambda x: x[1])
     top = up[1] + (1e-5 if name == "Wx+" else -1e-5)
     return [(1.2, -0.5), (1.8, -0.5), (1.8, top), (1.2, top)]
@@ -601,6 +610,8 @@ def tasks_for(tier, seed):
     B = []
     eq_res = [(65, 65)] if tier == "quick" else [(65, 65), (33, 65), (129, 129)]
     walls = ["W0", "W4", "Wx+", "Wx-"]
+    walls += ["W4:%d:%s" % (k, wd) for k in range(4) for wd in ("fwd", "rev") if (k, wd) != (0, "fwd")]
+    walls += ["W4:%d:fwd:m" % k for k in range(4)]
     for geom in EQ_GEOMS:
         for sigma in (1.0, -1.0):
             for res in eq_res:
